@@ -16,6 +16,9 @@ FLOW_PROPORTIONAL = {"lambda", "reynolds", "v_mean_m_per_s", "v_from_m_per_s", "
                      "vdot_norm_m3_per_s", "dp_friction_loss_bar", "compr_power_mw"}
 
 
+STATS = {}
+
+
 def nonunique_physics(snap, eps=1e-8):
     """A pump or compressor without flow has no defined lift (it lifts for +0 and bypasses for -0): the
     pressures behind it are not unique and such a solution cannot be compared with another run."""
@@ -56,6 +59,18 @@ def diff_snapshots(sa, sb, rtol=1e-7, atol=1e-9, name_map=None, reversed_names=(
     n = 0
     maxdev = 0.0
     col_atol = col_atol or {}
+    # A pump / compressor lifts for forward flow and is a plain connection for reverse flow: a network may have one solution
+    # on each side of that kink.  Two runs that settled on different sides are two valid results, not comparable.
+    for t in ("pump", "compressor"):
+        for name, ra in sa.get(t, {}).items():
+            nb = (name_map or {}).get(name, name)
+            rb = sb.get(t, {}).get(nb) if nb is not None else None
+            if rb is None:
+                continue
+            ma, mb = ra.get("mdot_from_kg_per_s", float("nan")), rb.get("mdot_from_kg_per_s", float("nan"))
+            if not (math.isnan(ma) or math.isnan(mb)) and ma * mb < 0 and min(abs(ma), abs(mb)) > zero_flow:
+                STATS["not_comparable_other_side_of_machine_law"] = STATS.get("not_comparable_other_side_of_machine_law", 0) + 1
+                return [], 0, 0.0
     # Flows whose friction loss is below what the solver resolves (the residual tolerance of the tight solves, 1e-9 bar)
     # are not determined by the equations (flat zero-flow loops): their magnitude is noise, and so is every flow of
     # that size.
@@ -108,9 +123,13 @@ def diff_snapshots(sa, sb, rtol=1e-7, atol=1e-9, name_map=None, reversed_names=(
                 n += 1
                 a_tol = col_atol.get(c, atol)
                 r_tol = rtol
+                # an undetermined circulation (noise loop, see above) rides on every branch of its loop
+                m_tol = max(atol, zero_flow) if noise else atol
+                if noise and c.startswith("mdot_") and "mdot_from_kg_per_s" in ra:
+                    a_tol = max(a_tol, m_tol)
                 if c in FLOW_PROPORTIONAL and "mdot_from_kg_per_s" in ra:
                     # flows that agree within atol carry that absolute slack into everything proportional to them
-                    r_tol = rtol + 4 * atol / max(abs(ra["mdot_from_kg_per_s"]), 1e-300)
+                    r_tol = rtol + 4 * m_tol / max(abs(ra["mdot_from_kg_per_s"]), 1e-300)
                 if c == "v_mean_m_per_s" and "normfactor_from" in ra and \
                         abs(ra["p_from_bar"] - ra["p_to_bar"]) <= 3e-5 * (abs(ra["p_to_bar"]) + 1.1):
                     # gas branches whose end pressures agree within 1e-5 (relative) use the from-pressure as
